@@ -75,7 +75,21 @@ impl Sink {
         if self.samples.len() < 6 || (self.n_cases.is_power_of_two() && self.samples.len() < 24) {
             let mut s = format!("{request} => {implementation}");
             if s.len() > 400 {
-                s.truncate(400);
+                while s.len() > 400 { s.pop(); }
+                s.push('…');
+            }
+            self.samples.push(s);
+        }
+    }
+    /// A case that also carries the verdict of an oracle independent of the model.
+    pub fn case3(&mut self, request: &str, implementation: &str, oracle: &str) {
+        debug_assert!(!oracle.contains(['\t', '\n']));
+        writeln!(self.cases, "{request}\t{implementation}\t{oracle}").expect("write case");
+        self.n_cases += 1;
+        if self.samples.len() < 6 {
+            let mut s = format!("{request} => {implementation} [{oracle}]");
+            if s.len() > 400 {
+                while s.len() > 400 { s.pop(); }
                 s.push('…');
             }
             self.samples.push(s);
